@@ -461,4 +461,292 @@ theorem dropLast_append_last {α : Type} (l : List α) (x : α) (h : l.getLast? 
       simp only [List.dropLast_cons_cons, List.cons_append]
       rw [ih h]
 
+/-! ### §8 rustc_lexer's `number` and what follows the token -/
+
+/-- a character that no phase of `number` / `eat_literal_suffix` consumes or looks for -/
+structure Stop (c : Char) : Prop where
+  dec : isDecU c = false
+  hex : isHexU c = false
+  ids : isIdStartA c = false
+  idc : isIdContinueA c = false
+  dig : ('0' ≤ c && c ≤ '9') = false
+  plus : c ≠ '+'
+  minus : c ≠ '-'
+  e : c ≠ 'e'
+  E : c ≠ 'E'
+  b : c ≠ 'b'
+  o : c ≠ 'o'
+  x : c ≠ 'x'
+
+theorem stop_space : Stop ' ' := by constructor <;> decide
+theorem stop_dot : Stop '.' := by constructor <;> decide
+
+theorem dropWhile_append_stop' {p : Char → Bool} (s : Str) (c : Char) (rest : Str) (hc : p c = false) :
+    (s ++ c :: rest).dropWhile p = s.dropWhile p ++ c :: rest := by
+  induction s with
+  | nil => simp [hc]
+  | cons a r ih =>
+    by_cases ha : p a = true
+    · simp [List.dropWhile, ha, ih]
+    · have : p a = false := by simpa using ha
+      simp [List.dropWhile, this]
+
+theorem takeWhile_append_stop' {p : Char → Bool} (s : Str) (c : Char) (rest : Str) (hc : p c = false) :
+    (s ++ c :: rest).takeWhile p = s.takeWhile p := by
+  induction s with
+  | nil => simp [hc]
+  | cons a r ih =>
+    by_cases ha : p a = true
+    · simp [List.takeWhile, ha, ih]
+    · have : p a = false := by simpa using ha
+      simp [List.takeWhile, this]
+
+theorem eatExponent_append (s : Str) (c : Char) (rest : Str) (h : Stop c) :
+    eatExponent (s ++ c :: rest) = eatExponent s ++ c :: rest := by
+  match s with
+  | [] =>
+    have h1 : (c == '+') = false := by simp [h.plus]
+    have h2 : (c == '-') = false := by simp [h.minus]
+    simp [eatExponent, h1, h2, List.dropWhile, h.dec]
+  | a :: u =>
+    by_cases hp : (a == '+' || a == '-') = true
+    · simp [eatExponent, hp, dropWhile_append_stop' u c rest h.dec]
+    · have hp' : (a == '+' || a == '-') = false := by simpa using hp
+      simp only [List.cons_append, eatExponent, hp', Bool.false_eq_true, if_false]
+      exact dropWhile_append_stop' (a :: u) c rest h.dec
+
+theorem eatSuffix_append (s : Str) (c : Char) (rest : Str) (h : Stop c) :
+    eatSuffix (s ++ c :: rest) = eatSuffix s ++ c :: rest := by
+  match s with
+  | [] => simp [eatSuffix, h.ids]
+  | a :: u =>
+    by_cases ha : isIdStartA a = true
+    · simp [eatSuffix, ha, dropWhile_append_stop' u c rest h.idc]
+    · have : isIdStartA a = false := by simpa using ha
+      simp [eatSuffix, this]
+
+theorem afterFraction_append (s : Str) (c : Char) (rest : Str) (h : Stop c) :
+    afterFraction (s ++ c :: rest) = afterFraction s ++ c :: rest := by
+  match s with
+  | [] =>
+    have h1 : (c == 'e') = false := by simp [h.e]
+    have h2 : (c == 'E') = false := by simp [h.E]
+    simp [afterFraction, h1, h2]
+  | y :: r3 =>
+    by_cases hy : (y == 'e' || y == 'E') = true
+    · simp [afterFraction, hy, eatExponent_append r3 c rest h]
+    · have hy' : (y == 'e' || y == 'E') = false := by simpa using hy
+      simp [afterFraction, hy']
+
+/-- `afterDigits` does not look beyond a stop character — except that a `.` directly behind a final `.` makes the
+lexer give the first one back (`1...`): excluded by `hs` -/
+theorem afterDigits_append (s : Str) (c : Char) (rest : Str) (h : Stop c)
+    (hdot : c = '.' → ∃ r, rest = '.' :: r) (hs : c = '.' → s ≠ ['.']) :
+    afterDigits (s ++ c :: rest) = afterDigits s ++ c :: rest := by
+  have hce : (c == 'e') = false := by simp [h.e]
+  have hcE : (c == 'E') = false := by simp [h.E]
+  match s with
+  | [] =>
+    by_cases hc : c = '.'
+    · subst hc
+      obtain ⟨r, hr⟩ := hdot rfl
+      subst hr
+      simp [afterDigits]
+    · have hc' : (c == '.') = false := by simp [hc]
+      simp [afterDigits, hc', hce, hcE]
+  | a :: u =>
+    by_cases ha : (a == '.') = true
+    · match u with
+      | [] =>
+        have hane : a = '.' := by simpa using ha
+        subst hane
+        have hc : c ≠ '.' := fun e => hs e rfl
+        have hc' : (c == '.') = false := by simp [hc]
+        simp [afterDigits, hc', h.ids, h.dig]
+      | x :: u' =>
+        by_cases hx : (x == '.' || isIdStartA x) = true
+        · simp [afterDigits, ha, hx]
+        · have hx' : (x == '.' || isIdStartA x) = false := by simpa using hx
+          by_cases hd : ('0' ≤ x && x ≤ '9') = true
+          · simp only [List.cons_append, afterDigits, ha, if_true, hx', Bool.false_eq_true, if_false, hd]
+            have := dropWhile_append_stop' (x :: u') c rest h.dec
+            simp only [List.cons_append] at this
+            rw [this, afterFraction_append _ c rest h]
+          · have hd' : ('0' ≤ x && x ≤ '9') = false := by simpa using hd
+            simp [afterDigits, ha, hx', hd']
+    · have ha' : (a == '.') = false := by simpa using ha
+      by_cases he : (a == 'e' || a == 'E') = true
+      · simp [afterDigits, ha', he, eatExponent_append u c rest h]
+      · have he' : (a == 'e' || a == 'E') = false := by simpa using he
+        simp [afterDigits, ha', he']
+
+theorem dropWhile_singleton_getLast {p : Char → Bool} (t : Str) (x : Char) (h : t.dropWhile p = [x]) :
+    t.getLast? = some x := by
+  induction t with
+  | nil => simp at h
+  | cons a r ih =>
+    by_cases ha : p a = true
+    · simp only [List.dropWhile, ha] at h
+      have := ih h
+      cases r with
+      | nil => simp at h
+      | cons b r' => rw [List.getLast?_cons_cons]; exact this
+    · have : p a = false := by simpa using ha
+      simp only [List.dropWhile, this] at h
+      simp at h
+      obtain ⟨h1, h2⟩ := h
+      subst h1 h2; simp
+
+theorem afterBase_append (p : Char → Bool) (u : Str) (c : Char) (rest : Str) (h : Stop c) (hp : p c = false)
+    (hdot : c = '.' → ∃ r, rest = '.' :: r) (hs : c = '.' → u.getLast? ≠ some '.') :
+    afterBase p (u ++ c :: rest) = afterBase p u ++ c :: rest := by
+  unfold afterBase
+  rw [takeWhile_append_stop' u c rest hp, dropWhile_append_stop' u c rest hp]
+  have hs' : c = '.' → u.dropWhile p ≠ ['.'] := fun e hh => hs e (dropWhile_singleton_getLast u '.' hh)
+  split
+  · rw [afterDigits_append _ c rest h hdot hs', eatSuffix_append _ c rest h]
+  · rw [eatSuffix_append _ c rest h]
+
+/-- **Appending a stop character behind a text does not change what `number` takes of it**, provided a `.` is not put
+directly behind a final `.`. -/
+theorem lexNumberRest_append (s : Str) (c : Char) (rest : Str) (hne : s ≠ []) (h : Stop c)
+    (hdot : c = '.' → ∃ r, rest = '.' :: r) (hs : c = '.' → s.getLast? ≠ some '.') :
+    lexNumberRest (s ++ c :: rest) = lexNumberRest s ++ c :: rest := by
+  match s with
+  | [] => exact absurd rfl hne
+  | d :: t =>
+    have hlast : c = '.' → t ≠ [] → t.getLast? ≠ some '.' := by
+      intro e hne' hh
+      apply hs e
+      cases t with
+      | nil => exact absurd rfl hne'
+      | cons b t' => rw [List.getLast?_cons_cons]; exact hh
+    have hdw : ∀ (p : Char → Bool), c = '.' → t.dropWhile p ≠ ['.'] := by
+      intro p e hh
+      have := dropWhile_singleton_getLast t '.' hh
+      have hne' : t ≠ [] := by intro e'; subst e'; simp at hh
+      exact hlast e hne' this
+    by_cases hd : (d == '0') = true
+    · simp only [List.cons_append, lexNumberRest, hd, if_true]
+      match t with
+      | [] =>
+        -- `0` directly followed by the stop character
+        have hb : (c == 'b' || c == 'o') = false := by simp [h.b, h.o]
+        have hx : (c == 'x') = false := by simp [h.x]
+        by_cases hc : c = '.'
+        · subst hc
+          obtain ⟨r, hr⟩ := hdot rfl
+          subst hr
+          simp [afterDigits, eatSuffix, isDecU, isIdStartA]
+        · have hc' : (c == '.') = false := by simp [hc]
+          have he : (c == 'e') = false := by simp [h.e]
+          have hE : (c == 'E') = false := by simp [h.E]
+          simp [hb, hx, h.dec, hc', he, hE, eatSuffix, h.ids]
+      | x :: u =>
+        have hu : c = '.' → u.getLast? ≠ some '.' := by
+          intro e hh
+          have := hlast e (by simp)
+          cases u with
+          | nil => simp at hh
+          | cons b u' => rw [List.getLast?_cons_cons] at this; exact this hh
+        simp only [List.cons_append]
+        by_cases hb : (x == 'b' || x == 'o') = true
+        · simp only [hb, if_true]
+          exact afterBase_append isDecU u c rest h h.dec hdot hu
+        · have hb' : (x == 'b' || x == 'o') = false := by simpa using hb
+          simp only [hb', Bool.false_eq_true, if_false]
+          by_cases hx : (x == 'x') = true
+          · simp only [hx, if_true]
+            exact afterBase_append isHexU u c rest h h.hex hdot hu
+          · have hx' : (x == 'x') = false := by simpa using hx
+            simp only [hx', Bool.false_eq_true, if_false]
+            by_cases hdec : isDecU x = true
+            · simp only [hdec, if_true]
+              have := dropWhile_append_stop' (x :: u) c rest h.dec
+              simp only [List.cons_append] at this
+              rw [this, afterDigits_append _ c rest h hdot (hdw isDecU), eatSuffix_append _ c rest h]
+            · have hdec' : isDecU x = false := by simpa using hdec
+              simp only [hdec', Bool.false_eq_true, if_false]
+              by_cases hpt : (x == '.' || x == 'e' || x == 'E') = true
+              · simp only [hpt, if_true]
+                have hne2 : c = '.' → x :: u ≠ ['.'] := by
+                  intro e hh
+                  have := hlast e (by simp)
+                  rw [hh] at this; simp at this
+                have := afterDigits_append (x :: u) c rest h hdot hne2
+                simp only [List.cons_append] at this
+                rw [this, eatSuffix_append _ c rest h]
+              · have hpt' : (x == '.' || x == 'e' || x == 'E') = false := by simpa using hpt
+                simp only [hpt', Bool.false_eq_true, if_false]
+                have := eatSuffix_append (x :: u) c rest h
+                simpa using this
+    · have hd' : (d == '0') = false := by simpa using hd
+      simp only [List.cons_append, lexNumberRest, hd', Bool.false_eq_true, if_false]
+      rw [dropWhile_append_stop' t c rest h.dec, afterDigits_append _ c rest h hdot (hdw isDecU),
+          eatSuffix_append _ c rest h]
+
+/-! ### §8 the last character of a printed float literal -/
+
+open RF.Lit RF.Lemmas.Literal
+
+theorem getLast?_append_ne {α : Type} (a b : List α) (h : b ≠ []) : (a ++ b).getLast? = b.getLast? := by
+  induction a with
+  | nil => simp
+  | cons x r ih =>
+    have : r ++ b ≠ [] := by simp [h]
+    cases hrb : r ++ b with
+    | nil => exact absurd hrb this
+    | cons y t => rw [List.cons_append, hrb, List.getLast?_cons_cons, ← hrb, ih]
+
+theorem digU_last_ne_dot (l : List Char) (h : l.all isDigU = true) : l.getLast? ≠ some '.' := by
+  intro hl
+  have hm := List.mem_of_getLast? hl
+  rw [List.all_eq_true] at h
+  have := h '.' hm
+  simp [isDigU, isDigit] at this
+
+theorem expWF_last_ne_dot {e : List Char} (h : ExpWF e) : e.getLast? ≠ some '.' ∧ e ≠ [] := by
+  obtain ⟨c, sign, d, rfl, -, -, hd, hne⟩ := h.ex
+  refine ⟨?_, by simp⟩
+  have : c :: sign ++ d = (c :: sign) ++ d := by simp
+  rw [this, getLast?_append_ne _ _ hne]
+  exact digU_last_ne_dot d hd
+
+theorem not_mem_last_ne (l : List Char) (h : '.' ∉ l) : l.getLast? ≠ some '.' :=
+  fun hl => h (List.mem_of_getLast? hl)
+
+/-- the last character of `ip ++ period ++ frac ++ ex ++ suffix` -/
+theorem printed_last (ip frac suffix : List Char) (point : Bool) (ex : Option (List Char))
+    (hip : ip.all isDigU = true) (hfr : frac.all isDigU = true) (hex : ∀ e, ex = some e → ExpWF e)
+    (hsuf : '.' ∉ suffix) :
+    ((ip ++ (if point then ['.'] else []) ++ frac ++ ex.getD [] ++ suffix).getLast? == some '.') =
+      (point && frac.isEmpty && ex.isNone && suffix.isEmpty) := by
+  by_cases hs : suffix = []
+  · subst hs
+    simp only [List.append_nil, List.isEmpty_nil, Bool.and_true]
+    cases ex with
+    | some e =>
+      obtain ⟨h1, h2⟩ := expWF_last_ne_dot (hex e rfl)
+      simp only [Option.getD_some, Option.isNone_some, Bool.and_false]
+      rw [getLast?_append_ne _ _ h2]
+      simp [h1]
+    | none =>
+      simp only [Option.getD_none, List.append_nil, Option.isNone_none, Bool.and_true]
+      by_cases hf : frac = []
+      · subst hf
+        cases point
+        · have := digU_last_ne_dot ip hip
+          simp [this]
+        · simp
+      · rw [getLast?_append_ne _ _ hf]
+        have := digU_last_ne_dot frac hfr
+        cases frac with
+        | nil => exact absurd rfl hf
+        | cons a r => simp [this]
+  · rw [getLast?_append_ne _ _ hs]
+    have := not_mem_last_ne suffix hsuf
+    cases suffix with
+    | nil => exact absurd rfl hs
+    | cons a r => simp [this]
+
 end RF.Lemmas.OptRewrites
